@@ -802,6 +802,11 @@ class Function(Ring):
             else:
                 args.append(fa)
 
+        # in case of a re-evaluation of a function with side effects on a buffer
+        # the values that are going to be overwritten have to be stored anew
+        if Fout is not None and setitem is None and is_set(Fout.setitem):
+            setitem = (Fout.setitem[0], operator.getitem(args[0], Fout.setitem[0]).copy())
+
         # STEP 2: call the function
         # print 'func=',func
         # print 'args=',args
